@@ -165,7 +165,7 @@ def real_outcome(env, src):
 NAMES = ["a", "b", "x", "items", "loop", "ns", "true", "_p", "caller"]
 EXPRS = ["x", "1", "'s'", "a.b", "x|f", "x|f(1)|g", "a + b * 2", "x if y else z", "x if y", "not a", "a < b < c", "f(1, k=2)", "[1, 2]",
          "(a, b)", "{'k': v}", "x is defined", "x is not none", "a ~ b", "-x", "x[1:2]", "a and b or c", "loop.index", "ns.v", "2 ** 3 ** 2",
-         "x in y", "x not in y", "1.5", "f(*a)", "x|f(k=1)", "", "1 +", "(", ")", "a b", "x is", "a.", "a,", "a, b", "a, b,", "none", "True"]
+         "x in y", "x not in y", "1.5", "x is defined if y else z", "x is odd if y", "x is not none and y", "x is t else", "x is t if", "a if x is t else b", "f(*a)", "x|f(k=1)", "", "1 +", "(", ")", "a b", "x is", "a.", "a,", "a, b", "a, b,", "none", "True"]
 TARGETS = ["x", "a, b", "(a, b)", "a, (b, c)", "ns.v", "ns.v, y", "x,", "1", "true", "a.b.c", "[a]", "x.y", "(a, 1)", "", "a b", "f()", "x[0]"]
 
 
